@@ -26,6 +26,7 @@ RULE = ("'vars': 1-6 hash-map variables with drawn formats (12% with a byte-orde
         "cells; key bytes -> value bytes by independent struct packing); two-party histories, "
         "no timing dimension; distinct = distinct (declarations, history) digests; "
         "non-trivial = at least 4 operations with at least one from each side")
+RULE += "; since the 4th session also a whole-cell copy inside a Dict lookup, 32-bit register views assigned to 64-bit variables, and a program run that modifies an entry before the n-th system call of Python's pop"
 COMPONENTS = {
     "real": ["ebpfcat.hashmap.HashMap/HashGlobalVar(Desc)/Dict/TheDict", "ebpfcat.ebpf."
              "Structure/Member", "ebpfcat.bpf map wrappers", "code generator"],
